@@ -368,17 +368,25 @@ def run(repo, tier):
     rep.analysed['statements of reached functions'] = total
     rep.analysed['statements interpreted'] = visited
     rep.analysed['percent of reached statements interpreted'] = (100 * visited) // max(total, 1)
+    # what the mnemonic table binds must have been called: partial(...) targets, closures, or objects with __call__
     enc = set()
+    n_bindings = 0
     table = it.module.store.vars.get('INSTRUCTIONS')
     for a in (table or ()):
         if a[0] == 'kdict':
             for _, v in a[1]:
                 for b in v:
+                    n_bindings += 1
                     f = b[1] if b[0] == 'partial' else b
-                    if f[0] == 'fn':
+                    if f[0] in ('fn', 'clo'):
                         enc.add(f[1])
-    rep.analysed['mnemonic encoders'] = len(enc)
-    rep.analysed['mnemonic encoders reached'] = len(enc & it.reached)
+                    elif f[0] == 'obj' and f[1] in it.classes:
+                        c_, q_ = it.find_method(f[1], '__call__')
+                        if q_ is not None:
+                            enc.add(q_)
+    rep.analysed['mnemonic bindings'] = n_bindings
+    rep.analysed['functions bound by mnemonics'] = len(enc)
+    rep.analysed['functions bound by mnemonics reached'] = len(enc & it.reached)
     rep.analysed['item / token / error constructions reached'] = len(it.ev_construct)
     rep.sample({'conversions': ['{} from {}:{} in {}'.format(r.cls, r.chain[-1][0], getattr(r.origin, 'lineno', '?'), q) for (q, h, r) in list(conv.values())[:12]]})
     for nid, (q, node, callee) in sorted(it.arity_mismatch.items(), key=lambda t: getattr(t[1][1], 'lineno', 0)):
@@ -394,6 +402,7 @@ def run(repo, tier):
     rep.floor('conversions seen', 5)
     rep.floor('AssemblerError constructions', 5)
     rep.floor('Line-holding attribute stores checked', 60)
-    rep.floor('mnemonic encoders', 20)
+    rep.floor('mnemonic bindings', 40)
+    rep.floor('functions bound by mnemonics', 1)
     rep.floor('percent of reached statements interpreted', 90)
     return rep
